@@ -162,7 +162,8 @@ func reuse(first string, f func() string) string {
 		}
 	}
 	var wg sync.WaitGroup
-	res := make([]string, 3)
+	res := make([]string, 4)
+	start := make(chan struct{})
 	for k := range res {
 		wg.Add(1)
 		go func(k int) {
@@ -172,9 +173,16 @@ func reuse(first string, f func() string) string {
 					res[k] = "panic"
 				}
 			}()
+			<-start
 			res[k] = f()
+			for j := 0; j < 3; j++ { // overlap the callers for longer than one call lasts
+				if f() != res[k] {
+					res[k] = "flicker"
+				}
+			}
 		}(k)
 	}
+	close(start)
 	wg.Wait()
 	for _, x := range res {
 		if x != first {
